@@ -479,9 +479,24 @@ pub fn check(a: &CheckArgs) -> i32 {
             continue;
         }
         let r = evaluate(&case, &base, "confirm");
-        let Some(vf) = r.violations.iter().find(|x| x.signature() == v.signature()).cloned() else {
-            harness_errors.push(format!("minimised case of {} did not reproduce on confirmation", f.violation.signature()));
-            continue;
+        let (r, vf) = match r.violations.iter().find(|x| x.signature() == v.signature()).cloned() {
+            Some(vf) => (r, vf),
+            None => {
+                // the minimised case does not reproduce in another scratch area: fall back to the
+                // case as found (behaviour that depends on the absolute location, for instance)
+                let r0 = evaluate(&f.case, &base, "confirm");
+                match r0.violations.iter().find(|x| x.signature() == f.violation.signature()).cloned() {
+                    Some(v0) => (r0, v0),
+                    None => {
+                        println!(
+                            "VIOLATION property={} replay=none class={} detail={} seed={} run_index={} occurrences={} :: {} (found in the batch; did not reproduce when the case was re-run in another scratch directory, so no replay file was written)",
+                            a.property, f.violation.class, f.violation.detail, a.seed, f.run_index, f.count, f.violation.message
+                        );
+                        reported.insert(f.violation.signature(), (PathBuf::from("none"), f.violation.clone(), false));
+                        continue;
+                    }
+                }
+            }
         };
         let sig = vf.signature();
         if known_sigs.contains(&sig) {
@@ -649,14 +664,19 @@ pub fn check(a: &CheckArgs) -> i32 {
         suppressed.values().sum::<u64>(),
         wall
     );
+    // a violation outranks doubts about the harness: code that breaks a property may well behave
+    // differently from one scratch directory to the next, which is what the self-test measures
+    if !reported.is_empty() {
+        for e in &harness_errors {
+            println!("WARNING (harness) {e}");
+        }
+        return 1;
+    }
     if !harness_errors.is_empty() {
         for e in &harness_errors {
             println!("HARNESS-ERROR {e}");
         }
         return 2;
-    }
-    if !reported.is_empty() {
-        return 1;
     }
     0
 }
